@@ -164,7 +164,8 @@ theorem bow2_do (σ : Val) : bow2.doProb bowG [0] [1] σ = byParity (σ 1) (5 / 
   split <;> norm_num
 
 theorem bow_witness : NonIdWitness bowG [0] [1] bow1 bow2 (fun _ => 0) := by
-  refine ⟨bow1_compatible, bow2_compatible, ⟨fun _ _ => rfl, fun σ => by rw [bow1_obs, bow2_obs]⟩, ?_⟩
+  refine ⟨bow1_compatible, bow2_compatible, ⟨fun _ _ => rfl, fun σ _ => by rw [bow1_obs, bow2_obs]⟩,
+    fun _ _ => by simp [bow1], ?_⟩
   rw [bow1_do, bow2_do]
   unfold byParity
   norm_num
